@@ -278,6 +278,12 @@ func c11Exec(schema *ast.Schema, op *c11Op) (res string) {
 				continue
 			}
 			b.WriteString("VARS " + showMap(coerced) + "\n")
+			// what a call returns belongs to its caller: resolvers add to and overwrite these maps; other calls must not see it
+			defer func(mp map[string]interface{}) {
+				if mp != nil {
+					mp["scribbledByCaller"] = op.doc
+				}
+			}(coerced)
 			if op.kind == "argmap" {
 				var walk func(ss ast.SelectionSet, depth int)
 				seen := map[string]bool{}
@@ -286,11 +292,15 @@ func c11Exec(schema *ast.Schema, op *c11Op) (res string) {
 						switch s := sel.(type) {
 						case *ast.Field:
 							if s.Definition != nil {
-								b.WriteString(s.Name + "(" + showMap(s.ArgumentMap(coerced)) + ")")
+								am := s.ArgumentMap(coerced)
+								b.WriteString(s.Name + "(" + showMap(am) + ")")
+								am["scribbledByCaller"] = s.Name
 							}
 							for _, d := range s.Directives {
 								if d.Definition != nil {
-									b.WriteString("@" + d.Name + "(" + showMap(d.ArgumentMap(coerced)) + ")")
+									am := d.ArgumentMap(coerced)
+									b.WriteString("@" + d.Name + "(" + showMap(am) + ")")
+									am["scribbledByCaller"] = d.Name
 								}
 							}
 							walk(s.SelectionSet, depth+1)
@@ -327,7 +337,9 @@ func c11Exec(schema *ast.Schema, op *c11Op) (res string) {
 							b.WriteString(where + "@" + d.Name + " PANIC " + core.PanicClass(fmt.Sprint(v)) + ";")
 						}
 					}()
-					b.WriteString(where + "@" + d.Name + "(" + showMap(d.ArgumentMap(nil)) + ");")
+					am := d.ArgumentMap(nil)
+					b.WriteString(where + "@" + d.Name + "(" + showMap(am) + ");")
+					am["scribbledByCaller"] = where
 				}()
 			}
 		}
@@ -497,6 +509,15 @@ func c11Check(x *core.Ctx, c *core.Case) {
 	yield, _ := strconv.Atoi(c.Get("yield"))
 	r := core.NewRand(seed, 11)
 	items := tsys.Schema(r, &tsys.GenOpts{Descs: true, Extensions: true})
+	if seed%4 == 1 {
+		// one type serves as query AND mutation root (the loader allows it): walks of different operation kinds meet on it
+		for _, it := range items {
+			if it.Kind == "schema" && !it.Extend && len(it.OpTypes) == 1 && it.OpTypes[0].Op == "query" {
+				it.OpTypes = append(it.OpTypes, model.OpType{Op: "mutation", Type: it.OpTypes[0].Type})
+				x.Count("rounds_with_shared_root_type")
+			}
+		}
+	}
 	src := (&model.Renderer{}).RenderSDoc(&model.SDoc{Items: items})
 	schema, err := gqlparser.LoadSchema(&ast.Source{Name: "shared.graphql", Input: src})
 	if err != nil {
